@@ -321,6 +321,7 @@ template <class V> struct Kern {
   static bool asg(int form, int op, T* a, const T* b, T* ret) {
     V x = ld(a), r; bool ok;
     if (form == 0) { const V y = ld(b); ok = applyAssign<T>(op, x, y, r); }
+    else if (form >= 3) { ok = applyAssign<T>(op, x, Simd::lane(form - 3, x), r); }   // v OP= lane(k, v): the scalar operand is a lane of v itself
     else { const T s = b[0]; ok = applyAssign<T>(op, x, s, r); }
     if (ok) { st(x, a); st(r, ret); }
     return ok;
@@ -430,10 +431,27 @@ Result execOps(const std::vector<std::string>& w) {
   const std::size_t n = K->n;
   if (kind == "bin" || kind == "asg") {
     const std::string& form = w.at(3);
-    const int f = form == "vv" ? 0 : form == "vs" ? 1 : form == "sv" ? 2 : -1;
+    int f = form == "vv" ? 0 : form == "vs" ? 1 : form == "sv" ? 2 : form == "va" ? 3 : -1;
     const int op = opCode(w.at(4));
-    if (f < 0 || op < 0 || (kind == "asg" && (f == 2 || op >= LT))) return noSuchOp();
+    if (f < 0 || op < 0 || (kind == "asg" && (f == 2 || op >= LT)) || (kind == "bin" && f == 3)) return noSuchOp();
     Buf<T> a = parseLanes<T>(f == 2 ? "[" + w.at(5) + "]" : w.at(5), f == 2 ? 1 : n);
+    if (f == 3) {
+      // asg T shape va op [a] k : a OP= lane(k, a); as the scalar is taken by value this is a OP= (the old value of lane k)
+      const std::size_t k = std::stoul(w.at(6));
+      if (k >= n) { res.impl = "bad-op"; res.oracle = "ok trivial"; return res; }
+      const T s0 = a[k];
+      for (std::size_t i = 0; i < n; ++i) if (!validBin<T>(opNames[op], a[i], s0)) return invalidInput();
+      const Buf<T> a0 = a;
+      Buf<T> ret(n), dummy(1);
+      if (!K->asg(3 + (int)k, op, a.data(), dummy.data(), ret.data())) return noSuchOp();
+      res.impl = showLanes(a.data(), n);
+      for (std::size_t i = 0; i < n; ++i) {
+        T e = a0[i], r{};
+        applyAssign<T>(op, e, s0, r);
+        if (!Cod<T>::same(a[i], e)) laneMismatch(res, i, a[i], e, "the scalar compound assignment with the value lane " + std::to_string(k) + " had before the call");
+      }
+      return res;
+    }
     Buf<T> b = parseLanes<T>(f == 1 ? "[" + w.at(6) + "]" : w.at(6), f == 1 ? 1 : n);
     auto A = [&](std::size_t k) -> T { return f == 2 ? a[0] : a[k]; };
     auto B = [&](std::size_t k) -> T { return f == 1 ? b[0] : b[k]; };
@@ -1591,14 +1609,16 @@ static std::string genMat(Rng& rng, const Args& a) {
     lanes[rng.below(S)][rng.below(n * n)] = rng.pick(nf);
     stat("matrix_with_nonfinite_entry");
   }
-  if (shape == "f4") {  // values must be floats: keep the exactly representable ones
-    for (auto& L : lanes) for (auto& x : L) x = (double)(float)x;
-    if (rng.coin(1, 25)) { static const std::vector<std::string> nf = {"x7f800000", "xff800000", "x7fc00000", "x00000001"}; (void)nf; }
-  }
+  if (shape == "f4") for (auto& L : lanes) for (auto& x : L) x = (double)(float)x;  // entries are floats
   std::vector<std::string> ta;
   for (int i = 0; i < n; ++i) for (int j = 0; j < n; ++j) for (int l = 0; l < S; ++l) {
     double x = lanes[l][i * n + j];
     ta.push_back(shape == "f4" ? ((x == std::floor(x) && std::fabs(x) < 1e6 && !(x == 0 && std::signbit(x))) ? std::to_string((long long)x) : tokF((float)x)) : tokNum(x));
+  }
+  if (shape == "f4" && rng.coin(1, 25)) {  // a non-finite / extreme float entry in one lane
+    static const std::vector<std::string> nf = {"x7f800000", "xff800000", "x7fc00000", "x7f7fffff", "x00000001", "x80000000"};
+    ta[rng.below(ta.size())] = rng.pick(nf);
+    stat("matrix_with_nonfinite_entry");
   }
   std::string line = "mat " + what + " " + shape + " " + std::to_string(n) + " " + (piv ? "1" : "0") + " " + listStr(ta);
   if (what == "solve" || what == "mv") line += " " + genSmallLanes(rng, (std::size_t)n * S);
@@ -1733,6 +1753,7 @@ static std::string propose(Rng& rng, const Args& a) {
     int fa = 0, fb = 0;
     if (isInt) { if ((op == "add" || op == "sub" || op == "mul") && (T == "i32" || T == "i64")) { if (rng.coin(3, 4)) fa = fb = 1; } if (op == "shl" || op == "shr") { fb = 2; if (op == "shl" && T != "u32") fa = 1; } }
     std::string A = genVec(rng, T, n, fa);
+    if (rng.coin(1, 5)) return "asg" + head + "va " + op + " " + genVec(rng, T, n, (op == "shl" || op == "shr") ? 2 : fa) + " " + std::to_string(rng.below(n));
     std::string B = form == "vs" ? genScalar(rng, T, fb) : genVec(rng, T, n, fb);
     return "asg" + head + form + " " + op + " " + A + " " + B;
   }
@@ -1785,16 +1806,37 @@ static std::string propose(Rng& rng, const Args& a) {
   return "lanes" + head;
 }
 
-static std::string gen(Rng& rng, long, const Args& a) {
-  std::string line;
-  for (int tries = 0; tries < 40; ++tries) {
-    line = propose(rng, a);
-    std::map<std::string, long> saved = stats();
-    Result r = exec(line);
-    stats() = saved;  // the trial execution is not counted
-    if (r.impl != "invalid" && r.impl != "ERR:NoSuchOp" && r.impl != "bad-op") return line;
+// The generator never executes the code under test: a crash must happen while the op line is already on record.
+// Combinations that do not exist for a scalar type are avoided by construction (opExists); integer operands that
+// would be undefined behaviour are still generated now and then and come back as "invalid" (trivial cases).
+static bool opExists(const std::string& line) {
+  auto w = words(line);
+  if (w.size() < 5) return true;
+  const std::string &kind = w[0], &T = w[1], &shape = w[2];
+  const bool fp = T == "f64" || T == "f32";
+  const bool nestedShape = shape.find('x') != std::string::npos;
+  auto intOnly = [](const std::string& op) { return op == "mod" || op == "band" || op == "bor" || op == "bxor" || op == "shl" || op == "shr"; };
+  if (kind == "bin" || kind == "asg") {
+    const std::string &form = w[3], &op = w[4];
+    if (fp && intOnly(op)) return false;
+    if (nestedShape && form == "sv" && (op == "land" || op == "lor")) return false;
   }
-  return "lanes f64 4";
+  if (kind == "un") {
+    const std::string& op = w[3];
+    if (fp && op == "bnot") return false;
+    if (T == "b" && (op == "preinc" || op == "predec" || op == "postinc" || op == "postdec")) return false;
+    if (!fp && (op == "isNaN" || op == "isInf" || op == "isFinite")) return false;
+  }
+  if (kind == "math" && nestedShape && indexOf(mathRetNames(), w[3]) >= 0) return false;
+  return true;
+}
+
+static std::string gen(Rng& rng, long, const Args& a) {
+  for (int tries = 0; tries < 100; ++tries) {
+    std::string line = propose(rng, a);
+    if (opExists(line)) return line;
+  }
+  return "lanes f64 4 ";
 }
 
 int main(int argc, char** argv) {
